@@ -34,12 +34,23 @@ def run(ctx):
                 d["eneT2"][0] -= 3 * calc.LN2      # distinct exchange rates for symmetry-distinct exchanges
             res = {}
             ks = list(range(-3, 17))
+            base = {kk: np.asarray(v).tolist() for kk, v in d.items()}
+            raised = False
             for k in ks:
                 t = dict(d, preT2=np.array(d["preT2"]) * 10.0 ** k)
-                res[k] = {"std": calc.Lij(s, t, large_om2=1e300) if k <= KVALID + 1 else None,
-                          "large": calc.Lij(s, t, large_om2=0.0),
-                          "default": calc.Lij(s, t)}
-            base = {kk: np.asarray(v).tolist() for kk, v in d.items()}
+                try:
+                    res[k] = {"std": calc.Lij(s, t, large_om2=1e300) if k <= KVALID + 1 else None,
+                              "large": calc.Lij(s, t, large_om2=0.0),
+                              "default": calc.Lij(s, t)}
+                except Exception as ex:      # noqa: BLE001 -- an exception at extreme rates is a violation
+                    ctx.case("sweep|%s|N%d#%d,%d" % (name, nth, rep, k))
+                    ctx.violation("rel|raised_%s|sweep|%s|N%d" % (type(ex).__name__, name, nth),
+                                  "Lij raised %s: %s on %s at omega2 prefactor 1e%d" % (type(ex).__name__, ex, name, k),
+                                  {"world": name, "data": base, "k": k})
+                    raised = True
+                    break
+            if raised:
+                continue
             for k in ks:
                 if not all(np.all(np.isfinite(T)) for T in res[k]["default"]):
                     ctx.case("sweep|%s|N%d#%d,%d" % (name, nth, rep, k))
@@ -84,7 +95,16 @@ def run(ctx):
                     p2 = np.array(d["preT2"], dtype=float)
                     p2[cls] *= 10.0 ** k
                     t = dict(d, preT2=p2)
-                    Ls, Ll = calc.Lij(s, t, large_om2=1e300), calc.Lij(s, t, large_om2=0.0)
+                    try:
+                        Ls, Ll = calc.Lij(s, t, large_om2=1e300), calc.Lij(s, t, large_om2=0.0)
+                    except Exception as ex:      # noqa: BLE001
+                        ctx.case("split|%s|N%d#%d,%d,%d" % (name, nth, rep, cls, k))
+                        ctx.violation("rel|raised_%s|split|%s|N%d" % (type(ex).__name__, name, nth),
+                                      "Lij raised %s: %s on %s with omega2 class %d alone at prefactor 1e%d" % (
+                                          type(ex).__name__, ex, name, cls, k),
+                                      {"world": name, "class": cls, "k": k,
+                                       "data": {kk: np.asarray(v).tolist() for kk, v in d.items()}})
+                        continue
                     tens, asserts = {}, []
                     for i, nm in enumerate(calc.NAMES4):
                         tens[nm + "_std"], tens[nm + "_large"] = rel.to_latt(s.crys, Ls[i]), rel.to_latt(s.crys, Ll[i])
